@@ -154,7 +154,8 @@ def random_script(rng, level, n, beyond=False, g=None):
                             else rng.choice(NTP_POOL), cmp=rng.choice([0, 0, 1, 2])))
         elif r < 0.985:
             report()
-            steps.append(ev("unbind", s=st.s))
+            if rng.random() < 0.7:
+                steps.append(ev("unbind", s=st.s))              # (otherwise: bound again while bound - starts fresh)
             report()
             streams[st.s] = Stream(rng, st.s, rng.choice(rates))
             steps.append(ev("bind", s=st.s, rate=streams[st.s].rate))
